@@ -57,7 +57,13 @@ def readableConstCount : Nat := Generated.consts.length - Generated.privateConst
 the constant, or its row has the implementation's value. -/
 def handleConst (op : String) (impl : List String) : Option Verdict :=
   match op.splitOn ":" with
-  | ["const", ty, name] =>
+  | ["flagcount", ty] =>
+    -- model: number of constants the translator found inside the `bitflags!` block of `ty`
+    let model := match Generated.flagCounts.lookup ty with
+      | some n => [toString n]
+      | none => ["missing"]
+    some (withOracle model true)
+  | ["flag", ty, name] | ["const", ty, name] =>
     let model := match Generated.lookup ty name with
       | some v => [toString v]
       | none => ["missing"]
@@ -69,7 +75,7 @@ def handleConst (op : String) (impl : List String) : Option Verdict :=
   | _ => none
 
 def handleC19 : Handler := fun _cfg op a impl =>
-  if op.startsWith "const:" then handleConst op impl else
+  if op.startsWith "const:" || op.startsWith "flag:" || op.startsWith "flagcount:" then handleConst op impl else
   match op, a.toList with
   | "const_count", [] =>
     some (eqSpec (fmtNat readableConstCount) impl impl)
